@@ -72,7 +72,7 @@ V_HARNESS(h_wrap_step)
   uint64_t pos, cur, target, pos2; vbi_bool r; unsigned lookahead0;
   V_INIT();
   in_bytes(WB, CAP); in_bytes(PREVB, CAP); in_bytes(SRCB, SS);
-  memset(&w, 0, sizeof w);
+  w.consume = 0;
   w.skip = in_u32(); w.lookahead = in_u32(); w.leftover = in_u32(); bpoff = in_u32(); src_left = in_u32(); idx = in_u16();
   V_ASSUME(w.lookahead <= CAP);
   V_ASSUME(bpoff <= CAP && w.leftover <= bpoff);
